@@ -7,6 +7,11 @@ R2  handler error mapping (JSON, URL-encoded) to the two 400-class errors
 R3  codec agreement of each serializer/deserializer pair
 R4  response render cache (writers reset it; the three render_body siblings
     render only when it is unset)
+R5  handler resolution in one case form (C11 R9)
+R6  the form serializer's quoting function is injective on text
+R7  the form reader answers "malformed" only for a failure of its parsing
+    primitives: no explicit raise / assert decided by a test on percent-DECODED
+    content (every string is a legitimate form value)
 
 Roles come from contract names (`_media`, `_media_error`, `_media_rendered`,
 `_resolve`, `exhaust_stream`, `deserialize*`, `serialize*`, parameter and
@@ -1024,6 +1029,228 @@ def r6_form_quoting(run):
         run.ok('form serializer: applies no *_check_escaped encoder to names or values itself', ser.loc(), ser.qual)
 
 
+# ---------------------------------------------------------------------------
+# R7 the form reader rejects a body only because a parsing primitive failed
+# (added after seeded change s6-c12-2)
+# ---------------------------------------------------------------------------
+# Every string is a legitimate form name / value: the writer percent-encodes
+# whatever it is given, so the DECODED content of a well-formed body can be any
+# text at all (U+FFFD REPLACEMENT CHARACTER, control characters, text that
+# looks like an escape, the empty mapping).  The reader may therefore answer
+# "malformed" only for a failure of its parsing primitives - the exceptions of
+# `body.decode('ascii')` / parse_query_string(), mapped by the except arm (R2).
+# A rejection its own code DECIDES by looking at decoded content - an explicit
+# raise / assert (outside the mapping arm) behind a test that reads text which
+# went through a percent-decoder (frozen table PERCENT_DECODERS), or the
+# parsed result - refuses the form the writer produces for exactly that
+# content.  Decided on URLEncodedFormHandler._deserialize and the helpers of
+# its class / module it hands the body text or the parsed result to:
+#   * every explicit raise / assert outside an except arm: the tests that
+#     decide it (dominating branch outcomes, the assert's own test) are
+#     classified; one that reads decoded content through a CONTENT_TESTS shape
+#     (membership, truthiness, comparison with a constant, str predicates,
+#     regular expressions) is the violation; a rejection decided in any other
+#     way (raw body text, configuration) is an unknown idiom;
+#   * what is returned is the parser's result as it is (a filtered / rebuilt
+#     result is an unknown idiom).
+
+PERCENT_DECODERS = {
+    'falcon.util.uri.decode': 'percent-decodes text (errors=replace)',
+    'falcon.util.uri.unquote_string': 'unquotes a quoted string',
+    'falcon.util.uri.parse_query_string': 'splits and percent-decodes a query string / form',
+    'urllib.parse.unquote': 'percent-decodes text',
+    'urllib.parse.unquote_plus': 'percent-decodes text, + as space',
+    'urllib.parse.unquote_to_bytes': 'percent-decodes to bytes',
+    'urllib.parse.parse_qs': 'splits and percent-decodes a query string',
+    'urllib.parse.parse_qsl': 'splits and percent-decodes a query string',
+}
+CONTENT_STR_TESTS = ('startswith', 'endswith', 'find', 'rfind', 'index', 'rindex', 'count', 'isprintable', 'isascii', 'isalnum', 'isalpha',
+                     'isdigit', 'isidentifier', 'isspace', 'encode', 'get', 'keys', 'values', 'items', 'strip', 'isdisjoint')
+_R7_WITNESS = "resp.media = {'k': '\ufffd'} is written as b'k=%EF%BF%BD'; sent back with the same content type it is answered with " \
+              "400 'Invalid URL-encoded' instead of deserializing to an equal mapping"
+
+
+def r7_form_reader_rejects_only_parse_failures(run):
+    from .c11 import _bindings_from, _derived_closure, _text_derived
+    p = run.project
+    uc = p.cls('falcon.media.urlencoded.URLEncodedFormHandler')
+    des = uc.methods.get('_deserialize')
+    if des is None:
+        raise AnchorError('URLEncodedFormHandler._deserialize not found')
+    params = [a.arg for a in des.node.args.args]
+    if len(params) != 2:
+        raise UnknownIdiom('%s takes %s' % (des.qual, params))
+    n_bad = [0]
+    seen: Set[str] = set()
+
+    def decoder_of(f: Func, c: ast.Call) -> Optional[str]:
+        t = p.resolve_callable(f, c.func) if isinstance(c.func, (ast.Name, ast.Attribute)) else None
+        q = t.qual if isinstance(t, Func) else t
+        return q if isinstance(q, str) and q in PERCENT_DECODERS else None
+
+    def analyse(f: Func, raw0: Set[str], dec0: Set[str], depth: int):
+        """`raw0`: parameters carrying the body (bytes / ASCII text); `dec0`: parameters carrying decoded content"""
+        if f.qual in seen:
+            return
+        seen.add(f.qual)
+        run.use(f)
+        raw: Set[str] = set()
+        for n0 in raw0:
+            raw |= _derived_closure(f.node, n0)
+        binds = list(_bindings_from(f.node))
+
+        def is_decoded(e) -> bool:
+            for x in ast.walk(e):
+                if isinstance(x, ast.Name) and isinstance(x.ctx, ast.Load) and x.id in dec:
+                    return True
+                if isinstance(x, ast.Call) and decoder_of(f, x) and any(_text_derived(a, raw) or is_decoded(a)
+                                                                        for a in list(x.args) + [k.value for k in x.keywords]):
+                    return True
+            return False
+
+        dec: Set[str] = set(dec0)
+        changed = True
+        while changed:
+            changed = False
+            for tgts, v in binds:
+                if not tgts <= dec and is_decoded(v):
+                    dec |= tgts
+                    changed = True
+        raw -= dec
+
+        def reads_raw(e) -> bool:
+            return any(isinstance(x, ast.Name) and isinstance(x.ctx, ast.Load) and x.id in raw for x in ast.walk(e))
+
+        def content_shape(test) -> bool:
+            """every leaf of the test that reads decoded content is one of the CONTENT_TESTS shapes"""
+            ok = True
+            for leaf in _leaves(test):
+                if not is_decoded(leaf):
+                    continue
+                x = leaf
+                if isinstance(x, ast.Compare) and all(isinstance(o, (ast.In, ast.NotIn, ast.Eq, ast.NotEq, ast.Lt, ast.LtE, ast.Gt, ast.GtE))
+                                                      for o in x.ops):
+                    continue
+                if isinstance(x, (ast.Name, ast.Attribute, ast.Subscript)):
+                    continue                                   # truthiness
+                if isinstance(x, ast.Call) and isinstance(x.func, ast.Name) and x.func.id in ('len', 'any', 'all', 'bool'):
+                    continue
+                if isinstance(x, ast.Call) and isinstance(x.func, ast.Attribute) and x.func.attr in CONTENT_STR_TESTS:
+                    continue
+                if isinstance(x, ast.Call) and (dotted(x.func) or '').split('.')[0] in ('re', 'fnmatch', 'unicodedata'):
+                    continue
+                if isinstance(x, ast.Call) and isinstance(x.func, ast.Attribute) and x.func.attr in (
+                        'search', 'match', 'fullmatch', 'findall', 'finditer'):
+                    continue                                   # compiled pattern
+                if isinstance(x, ast.Call) and decoder_of(f, x):
+                    continue
+                ok = False
+            return ok
+
+        def _leaves(e):
+            if isinstance(e, ast.BoolOp):
+                for v in e.values:
+                    yield from _leaves(v)
+            elif isinstance(e, ast.UnaryOp) and isinstance(e.op, ast.Not):
+                yield from _leaves(e.operand)
+            else:
+                yield e
+
+        cfg = cfg_of(f, p)
+        run.use_cfg(cfg)
+        in_handler: Set[int] = set()
+        for h in walk_self(f.node):
+            if isinstance(h, ast.ExceptHandler):
+                for st in h.body:
+                    in_handler |= {id(x) for x in ast.walk(st)}
+        tag = '%s.%s' % (uc.name, f.name) if f.cls is not None else f.qual.rsplit('.', 1)[-1]
+        what = 'form reader (%s): a body is answered with the malformed-media error only because a parsing primitive failed ' \
+               "(decode('ascii') / parse_query_string) - never because its own code looked at the percent-DECODED content " \
+               '(membership / pattern / predicate test on decoded text or on the parsed result)' % tag
+        n_rej = 0
+        for st in walk_self(f.node):
+            if not isinstance(st, (ast.Raise, ast.Assert)) or id(st) in in_handler:
+                continue
+            nids = cfg.nodes_for(st)
+            if not nids:
+                continue
+            n_rej += 1
+            deciding = [(st.test, True)] if isinstance(st, ast.Assert) else []
+            for t in cfg.live_nodes():
+                if t.kind != 'test':
+                    continue
+                for (y, l) in cfg.succ[t.id]:
+                    if l in ('T', 'F') and all(flow.dominated_by_edge(cfg, nid, (t.id, y, l)) for nid in nids):
+                        deciding.append((t.ast, l == 'T'))
+            by_content = [(t, v) for t, v in deciding if is_decoded(t)]
+            if by_content:
+                for t, v in by_content:
+                    if not content_shape(t):
+                        raise UnknownIdiom('%s: test %s on decoded content deciding %s' % (f.qual, short(t, 60), short(st, 60)))
+                    n_bad[0] += 1
+                    run.fail(what, f, t, where=f.loc(t), witness=['%s is reached when %s is %s' % (short(st, 60), short(t, 60), str(v).lower())] + [
+                        'decoded content: %s' % ', '.join(sorted({x.id for x in ast.walk(t) if isinstance(x, ast.Name) and x.id in dec}) or
+                                                          ['the result of a percent-decoder called in the test'])],
+                             runtime_witness=_R7_WITNESS)
+                continue
+            raise UnknownIdiom('%s: %s is decided by %s - not a failure of a parsing primitive, and not read' % (
+                f.qual, short(st, 60), ' and '.join(short(t, 40) for t, _ in deciding) or 'no test'))
+        if not n_rej:
+            run.ok(what + ' [no explicit raise / assert outside the mapping except arm]', f.loc(), f.qual)
+
+        # helpers that receive the body text or decoded content
+        for c in walk_self(f.node):
+            if not isinstance(c, ast.Call) or id(c) in in_handler or decoder_of(f, c):
+                continue
+            t = p.resolve_callable(f, c.func) if isinstance(c.func, (ast.Name, ast.Attribute)) else None
+            if not isinstance(t, Func) or not (t.module is f.module):
+                continue
+            hp = [a.arg for a in t.node.args.posonlyargs + t.node.args.args]
+            if t.cls is not None and hp and hp[0] in ('self', 'cls') and isinstance(c.func, ast.Attribute):
+                hp = hp[1:]
+            r2, d2 = set(), set()
+            for i, a in enumerate(c.args):
+                if isinstance(a, ast.Starred) or i >= len(hp):
+                    continue
+                if is_decoded(a):
+                    d2.add(hp[i])
+                elif _text_derived(a, raw):
+                    r2.add(hp[i])
+            for k in c.keywords:
+                if k.arg in hp:
+                    if is_decoded(k.value):
+                        d2.add(k.arg)
+                    elif _text_derived(k.value, raw):
+                        r2.add(k.arg)
+            if r2 or d2:
+                if depth >= 2:
+                    raise UnknownIdiom('%s: the body is handed on through more than two levels of helpers (%s)' % (des.qual, t.qual))
+                analyse(t, r2, d2, depth + 1)
+        return dec, is_decoded
+
+    dec, is_decoded = analyse(des, {params[1]}, set(), 0)
+
+    # what is returned is the parser's result as it is
+    pq = [c for c in walk_self(des.node) if isinstance(c, ast.Call) and isinstance(p.resolve_callable(des, c.func), Func)
+          and p.resolve_callable(des, c.func).qual == 'falcon.util.uri.parse_query_string']
+    if not pq:
+        raise AnchorError('%s: parse_query_string() call not found' % des.qual)
+    rets = [r for r in walk_self(des.node) if isinstance(r, ast.Return)]
+    if not rets:
+        raise AnchorError('%s: no return' % des.qual)
+    for r in rets:
+        v = r.value
+        if isinstance(v, ast.Name):
+            b = _assignments(des.node, v.id)
+            if len(b) == 1 and b[0][1] is not None:
+                v = b[0][1]
+        if not any(v is c for c in pq):
+            raise UnknownIdiom('%s: %s does not hand out the result of parse_query_string() as it is' % (des.qual, short(r, 60)))
+        run.ok('form reader: what is returned is the result of parse_query_string() as it is (nothing is filtered out of it)', des.loc(r), r)
+    if not n_bad[0]:
+        run.ok('form reader: no rejection is decided by a look at the decoded content', des.loc(), des.qual)
+
+
 def check(run):
     run.assume('E5 assumptions (see C09/C11); the configured JSON loads() raises ValueError subclasses only (json.JSONDecodeError is one)')
     run.assume('urllib.parse.urlencode emits pure ASCII')
@@ -1037,3 +1264,5 @@ def check(run):
 
     run.rule('R5', _c11._safe(_c11.r9_same_case_form), 'handler resolution compares requested type and registered keys in one case form (shared with C11 R9)', floor=2)
     run.rule('R6', _safe(r6_form_quoting), "the form serializer's quoting function escapes '%' and the form delimiters unconditionally (no *_check_escaped encoder)", floor=4)
+    run.rule('R7', _safe(r7_form_reader_rejects_only_parse_failures), 'the form reader rejects a body only for a failure of its parsing primitives, never by '
+             'inspecting the percent-decoded content (U+FFFD sniffing, pattern / membership tests on decoded text)', floor=2)
